@@ -86,6 +86,8 @@ struct Session<'o> {
     nt: usize,
     maxg: usize,
     pending: Option<Value>,
+    /// the call being executed (reported if the code under test panics where no panic is expected)
+    last: Value,
     guards: Vec<Option<GuardMeta>>,
     held: Vec<HeldMeta>,
 }
@@ -131,10 +133,15 @@ impl Session<'_> {
 
     fn next(&mut self, reg: &Reg) -> Option<Value> {
         if let Some(a) = self.pending.take() {
+            self.last = a.clone();
             return Some(a);
         }
         let info = self.info(reg);
-        self.src.next(&info).map(lift)
+        let a = self.src.next(&info).map(lift);
+        if let Some(a) = &a {
+            self.last = a.clone();
+        }
+        a
     }
 
     /// scopes with the cells under an exclusive guard read through that guard's last known value
@@ -532,13 +539,25 @@ fn session(out: &mut Out, run: u64, nt: usize, maxg: usize, src: Box<dyn Source>
         nt,
         maxg,
         pending: None,
+        last: Value::Null,
         guards: (0..maxg).map(|_| None).collect(),
         held: Vec::new(),
     };
-    let end = caught(|| run_body(&mut sess, &mut state, false)).unwrap_or_else(|m| {
-        panic!("run {} call #{}: {}", sess.run, sess.i, m);
-    });
-    assert!(end.is_none(), "hold_exit outside a holding body");
+    match caught(std::panic::AssertUnwindSafe(|| run_body(&mut sess, &mut state, false))) {
+        Ok(end) => assert!(end.is_none(), "hold_exit outside a holding body"),
+        Err(m) => {
+            // a panic outside the accessors that are allowed to panic (or inside the projection, because the call left
+            // the state unusable): data, not a tool error -- the record matches no action of the model and the run ends
+            for g in sess.guards.iter_mut() {
+                if let Some(g) = g.take() {
+                    std::mem::forget(g);
+                }
+            }
+            let rec = json!({"run": sess.run, "i": sess.i, "act": sess.last, "res": {"k": "crash", "v": NOVAL, "m": empty_map(nt)},
+                             "error": m, "scopes": [], "guards": [], "held": []});
+            sess.out.emit(&rec);
+        }
+    }
 }
 
 pub fn main(args: &Args) -> usize {
